@@ -505,6 +505,101 @@ def inline_local_defs(func):
     return func
 
 
+# ------------------------------------------------------------------------------------------ extracted helpers, whole function
+
+def _helper_calls(node, resolve, owner):
+    """calls inside `node` to helpers that inline_stmt_calls could expand (statement helpers: loops, several statements)"""
+    out = []
+    for n in ast.walk(node):
+        if isinstance(n, ast.Call):
+            r = resolve(n)
+            if r is not None and r[0] is not owner and _simple_callee(r[0]) == "stmts":
+                out.append(n)
+    return out
+
+
+def _unfold_comprehension(st, resolve, owner):
+    """`X = [E for .. in .. if ..]` whose element calls a statement helper -> `X = []` + the loop nest appending E (the inverse of
+    core._Canon's append-loop folding): the helper call becomes a statement that can be expanded in place"""
+    if not (isinstance(st, ast.Assign) and len(st.targets) == 1 and isinstance(st.targets[0], ast.Name) and isinstance(st.value, ast.ListComp)):
+        return None
+    comp = st.value
+    if not _helper_calls(comp.elt, resolve, owner) or any(g.is_async for g in comp.generators):
+        return None
+    x = st.targets[0].id
+    if x in _loaded(comp):
+        return None
+    inner = ast.Expr(value=ast.Call(func=ast.Attribute(value=ast.Name(id=x, ctx=ast.Load()), attr="append", ctx=ast.Load()), args=[comp.elt], keywords=[]))
+    body = [inner]
+    for g in reversed(comp.generators):
+        for c in reversed(g.ifs):
+            body = [ast.If(test=c, body=body, orelse=[])]
+        body = [ast.For(target=g.target, iter=g.iter, body=body, orelse=[], type_comment=None)]
+    init = ast.Assign(targets=[ast.Name(id=x, ctx=ast.Store())], value=ast.List(elts=[], ctx=ast.Load()))
+    out = [init] + body
+    for b in out:
+        ast.copy_location(b, st)
+        ast.fix_missing_locations(b)
+    return out
+
+
+def _hoist_helper_arg(st, resolve, owner):
+    """`X.append(h(a))` / `f(h(a))` / `x = g(h(a))` with h a statement helper -> `_t = h(a)` + the statement using `_t`; only when
+    everything evaluated before the helper call is a plain name / constant (evaluation order is kept)"""
+    if not isinstance(st, (ast.Expr, ast.Assign, ast.AugAssign, ast.Return)) or not isinstance(st.value, ast.Call):
+        return None
+    outer = st.value
+    if resolve(outer) is not None and _simple_callee(resolve(outer)[0]) is not None:
+        return None                       # the statement's own call is a helper: expanded as it is
+    f = outer.func
+    if not (isinstance(f, ast.Name) or (isinstance(f, ast.Attribute) and isinstance(f.value, ast.Name))):
+        return None
+    for i, a in enumerate(outer.args):
+        if isinstance(a, ast.Call) and a in _helper_calls(a, resolve, owner)[:1]:
+            if not all(_pure(p) for p in outer.args[:i]):
+                return None
+            t = f"_arg{next(_counter)}"
+            pre = ast.Assign(targets=[ast.Name(id=t, ctx=ast.Store())], value=a)
+            outer.args[i] = ast.Name(id=t, ctx=ast.Load())
+            ast.copy_location(pre, st)
+            ast.fix_missing_locations(pre)
+            ast.fix_missing_locations(st)
+            return [pre, st]
+        if not _pure(a):
+            return None
+    return None
+
+
+def expand_helpers(func, resolve):
+    """A function with the helpers it was split into put back (in place; hand in a copy).  resolve(call) -> (callee FunctionDef,
+    receiver expr | None) | None decides which calls are helpers (pymodel.Package.expanded: methods of the same class reached
+    through self/cls, functions of the same module).  Statement helpers are expanded where a call is a whole statement, after
+    comprehensions / call arguments that contain such a call were turned into statements; one-expression helpers are replaced
+    wherever they are called.  Anything that cannot be expanded safely stays a call."""
+    def prepare(stmts):
+        out = []
+        for st in stmts:
+            for fld in ("body", "orelse", "finalbody"):
+                b = getattr(st, fld, None)
+                if isinstance(b, list) and b and isinstance(b[0], ast.stmt) and not isinstance(st, (ast.FunctionDef, ast.ClassDef, ast.AsyncFunctionDef)):
+                    setattr(st, fld, prepare(b))
+            un = _unfold_comprehension(st, resolve, func)
+            if un is not None:
+                out.extend(prepare(un))
+                continue
+            ho = _hoist_helper_arg(st, resolve, func)
+            if ho is not None:
+                out.extend(ho)
+                continue
+            out.append(st)
+        return out
+    func.body = prepare(func.body)
+    inline_stmt_calls(func, resolve)
+    func.body = [_ExprInliner(resolve, func).visit(st) for st in func.body]
+    ast.fix_missing_locations(func)
+    return func
+
+
 def normalize_function(func):
     """the local normalisations (no knowledge of other functions needed)"""
     try:
